@@ -8,7 +8,7 @@ import re
 from sa import term as T
 from sa.absio import Expr, NdArr
 from sa.interp import Interp, Opaque, RaiseSignal, SVar
-from sa.load import AnalysisError, Repo, loc
+from sa.load import AnalysisError, Repo, loc, where_of
 from sa.report import Run
 from sa.scipp_model import Model
 from sa.term import Rat
@@ -394,7 +394,7 @@ def run(tier: str) -> Run:
     sel_cases = sorted({f'coords={[n for n, _ in c]} coord={a}' for c in coord_sets for a in (None, 'a') if (a is None or a in dict(c)) and c})
     for inst in sel_cases:
         f = fails['r5'].get(inst)
-        r5.check(f is None, inst, loc(repo.func('io.xye', '_deduce_coord')), {'configuration': f[0], 'problem': f[1]} if f else {}, key=inst)
+        r5.check(f is None, inst, where_of(repo, 'io.xye', '_deduce_coord', 'save_xye'), {'configuration': f[0], 'problem': f[1]} if f else {}, key=inst)
 
     # ---- load side ------------------------------------------------------------------------
     load_kwargs = None
